@@ -43,6 +43,80 @@ Proof.
       match type of E with (if ?b then _ else _) = _ => destruct b end; cbn in E; discriminate.
 Qed.
 
+(* ---- the RepeatedTimer: stop() leaves nothing behind, whenever it comes ------------------------- *)
+Definition rt_stopped (t : RT) : Prop := rt_running t = false /\ rt_cur t <> Armed /\ rt_orphans t = O.
+
+Lemma rt_step_orphans t e : rt_orphans t = O -> rt_orphans (rt_step true t e) = O.
+Proof.
+  intros H. destruct t as [r c o d]. cbn in H. subst o.
+  destruct e; cbn; [destruct c; reflexivity|destruct d; reflexivity|reflexivity].
+Qed.
+
+Lemma rt_exec_orphans es : forall t, rt_orphans t = O -> rt_orphans (rt_exec true t es) = O.
+Proof.
+  induction es as [|e es IH]; intros t H; [exact H|]. cbn [rt_exec fold_left]. apply IH. apply rt_step_orphans. exact H.
+Qed.
+
+Lemma rt_step_stopped t e : rt_stopped t -> rt_stopped (rt_step true t e).
+Proof.
+  intros (R & C & O). destruct t as [r c o d]. cbn in R, C, O. subst r o. unfold rt_stopped.
+  destruct e; cbn.
+  - destruct c; [congruence| |]; cbn; repeat split; congruence.
+  - destruct d; cbn; repeat split; assumption.
+  - destruct c; [congruence| |]; repeat split; congruence.
+Qed.
+
+Lemma rt_exec_stopped es : forall t, rt_stopped t -> rt_stopped (rt_exec true t es).
+Proof.
+  induction es as [|e es IH]; intros t H; [exact H|]. cbn [rt_exec fold_left]. apply IH. apply rt_step_stopped. exact H.
+Qed.
+
+Lemma rt_stop_stops t : rt_orphans t = O -> rt_stopped (rt_step true t Stop).
+Proof. intros H. destruct t as [r c o d]. cbn in H. subst o. unfold rt_stopped. destruct c; cbn; repeat split; congruence. Qed.
+
+Lemma rt_drain t : rt_stopped t -> rt_threads (rt_exec true t (repeat DumpDone (rt_dumping t))) = O.
+Proof.
+  destruct t as [r c o d]. intros (R & C & O). cbn in R, C, O. subst r o. cbn [rt_dumping].
+  induction d as [|d IH]; cbn.
+  - unfold rt_threads, rt_armed. cbn. destruct c; [congruence|reflexivity|reflexivity].
+  - exact IH.
+Qed.
+
+(* whatever happened before stop() and whatever happens afterwards: no timer is armed any more,
+   none can be armed again, and the only threads left are dumps on their way out *)
+Theorem rt_stop_final (pre post : list tevent) :
+  let t := rt_exec true rt_init (pre ++ Stop :: post) in
+  rt_armed t = O /\ rt_running t = false
+  /\ rt_threads (rt_exec true t (repeat DumpDone (rt_dumping t))) = O.
+Proof.
+  assert (E : rt_exec true rt_init (pre ++ Stop :: post)
+              = rt_exec true (rt_step true (rt_exec true rt_init pre) Stop) post).
+  { unfold rt_exec. rewrite fold_left_app. reflexivity. }
+  cbn zeta. rewrite E.
+  assert (H0 : rt_orphans (rt_exec true rt_init pre) = O) by (apply rt_exec_orphans; reflexivity).
+  pose proof (rt_exec_stopped post _ (rt_stop_stops _ H0)) as S.
+  set (t := rt_exec true (rt_step true (rt_exec true rt_init pre) Stop) post) in *.
+  split; [|split].
+  - destruct S as (_ & C & O). unfold rt_armed. rewrite O. destruct (rt_cur t); [congruence|reflexivity|reflexivity].
+  - apply S.
+  - apply rt_drain. exact S.
+Qed.
+
+Theorem rt_leftover_none (es : list tevent) : rt_leftover rearm_before_dump es = O.
+Proof.
+  unfold rt_leftover, rearm_before_dump.
+  replace (es ++ [Stop]) with (es ++ Stop :: []) by reflexivity.
+  apply (rt_stop_final es []).
+Qed.
+
+(* with the other order (_run dumps first and re-arms afterwards) a stop() that falls into a
+   dump is undone when the dump returns: one timer is armed again, for ever *)
+Lemma rt_dump_first_leaks :
+  rt_leftover false [Fire] = 1%nat
+  /\ rt_armed (rt_exec false rt_init [Fire; Stop; DumpDone]) = 1%nat
+  /\ rt_leftover false [] = O /\ rt_leftover false [Fire; DumpDone] = O.
+Proof. vm_compute. repeat split; reflexivity. Qed.
+
 (* ---- what main_body does to each part of the state -------------------------------------- *)
 Definition path_after (o : Opts) (p : Prog) (c : cell) : cell :=
   let c := if o_module o then insert0 (o_cwd o) c else c in
@@ -58,9 +132,10 @@ Definition gp_after (cfg : Fixes) (g : GP) (n : Z) : GP :=
   let g1 := overwrite g (Some (Ext n)) in
   if fx_profile cfg then set_enabled (f_enabled g) (set_profile (f_profile g) g1) else overwrite g1 None.
 
-Definition timers_after (cfg : Fixes) (o : Opts) (t : Z) : Z :=
+Definition timers_after (cfg : Fixes) (o : Opts) (p : Prog) (t : Z) : Z :=
   let timed := 0 <? o_interval o in
-  t + (if timed then (if fx_timer cfg then 1 else 2) else 0) - (if timed then 1 else 0).
+  t + (if timed then (if fx_timer cfg then 1 else 2) else 0) - (if timed then 1 else 0)
+  + (if timed then Z.of_nat (rt_leftover rearm_before_dump (p_sched p)) else 0).
 
 Definition builtin_after (cfg : Fixes) (o : Opts) (b : option prof) (n : Z) : option prof :=
   if fx_builtin cfg then b else if o_line o || o_builtin o then Some (Ext n) else b.
@@ -69,7 +144,7 @@ Lemma main_body_eq cfg o p s :
   main_body cfg o p s
   = (result_of (effective_outcome o p (builtin s)),
      mkSt (argv_after cfg o p (argv s)) (path_after o p (path s)) (gp_after cfg (gp s) (next_prof s))
-          (builtin_after cfg o (builtin s) (next_prof s)) (timers_after cfg o (timers s)) (tracing s)
+          (builtin_after cfg o (builtin s) (next_prof s)) (timers_after cfg o p (timers s)) (tracing s)
           (next_prof s + 1)).
 Proof.
   unfold main_body, argv_after, path_after, gp_after, timers_after, builtin_after.
@@ -93,7 +168,7 @@ Lemma main_eq cfg o p s :
      mkSt (wrapped_cell cfg (result_of (effective_outcome o p (builtin s))) (argv s) (argv_after cfg o p (argv s)))
           (wrapped_cell cfg (result_of (effective_outcome o p (builtin s))) (path s) (path_after o p (path s)))
           (gp_after cfg (gp s) (next_prof s))
-          (builtin_after cfg o (builtin s) (next_prof s)) (timers_after cfg o (timers s)) (tracing s)
+          (builtin_after cfg o (builtin s) (next_prof s)) (timers_after cfg o p (timers s)) (tracing s)
           (next_prof s + 1)).
 Proof.
   unfold main, with_restore. rewrite main_body_eq. unfold wrapped_cell, restoring, held.
@@ -178,7 +253,7 @@ Lemma run_timers cfg o p s :
   (fx_timer cfg = true \/ o_interval o <= 0) ->
   timers (snd (main cfg o p s)) = timers s.
 Proof.
-  intros H. rewrite main_eq. cbn [snd timers]. unfold timers_after.
+  intros H. rewrite main_eq. cbn [snd timers]. unfold timers_after. rewrite rt_leftover_none.
   destruct (0 <? o_interval o) eqn:T.
   - destruct H as [H|H]; [rewrite H; lia|lia].
   - lia.
@@ -188,7 +263,7 @@ Lemma run_timers_leak cfg o p s :
   fx_timer cfg = false -> 0 < o_interval o ->
   timers (snd (main cfg o p s)) = timers s + 1.
 Proof.
-  intros H T. rewrite main_eq. cbn [snd timers]. unfold timers_after. rewrite H.
+  intros H T. rewrite main_eq. cbn [snd timers]. unfold timers_after. rewrite H, rt_leftover_none.
   destruct (0 <? o_interval o) eqn:E; lia.
 Qed.
 
@@ -355,6 +430,49 @@ Proof.
   rewrite argv_clause, path_clause, profile_clause, tracing_clause, timers_clause; auto.
 Qed.
 
+(* ---- in-process runs are invisible to everything that happens around them ------------------------ *)
+Lemma run_gp_fixed cfg o p s : fx_profile cfg = true -> gp (snd (main cfg o p s)) = gp s.
+Proof. intros H. rewrite main_eq. cbn [snd gp]. unfold gp_after. rewrite H. destruct (gp s). reflexivity. Qed.
+
+Lemma run_veq cfg o p s :
+  fx_at_call cfg = true -> fx_finally cfg = true -> fx_profile cfg = true -> fx_timer cfg = true ->
+  veq (snd (main cfg o p s)) s.
+Proof.
+  intros A F P T. unfold veq.
+  assert (Hr : restoring cfg (fst (main cfg o p s)) = true)
+    by (unfold restoring; rewrite F; destruct (fst (main cfg o p s)); reflexivity).
+  destruct (run_argv cfg o p s Hr (or_introl A)) as (A1 & _).
+  destruct (run_path cfg o p s Hr (or_introl A)) as (P1 & _).
+  cbn zeta in *. rewrite A1, P1, run_gp_fixed, run_tracing, run_timers; auto.
+Qed.
+
+Lemma user_veq a s1 s2 : is_user a = true -> veq s1 s2 -> veq (do_user a s1) (do_user a s2).
+Proof.
+  intros U (A & P & G & T & M). unfold cur in A.
+  destruct a; [discriminate| | |]; unfold do_user; rewrite G; try rewrite A.
+  - destruct (enable (gp s2) None) as [[u g]|e]; unfold veq; cbn; auto.
+  - destruct (disable (gp s2)) as [[u g]|e]; unfold veq; cbn; auto.
+  - destruct (decorate (gp s2) _ _ _) as [[u g]|e]; unfold veq; cbn; auto.
+Qed.
+
+(* Interleave kernprof.main runs with ordinary use of the decorator in any way: what can be
+   observed at the end is what the ordinary uses alone would have produced. *)
+Theorem runs_invisible cfg :
+  fx_at_call cfg = true -> fx_finally cfg = true -> fx_profile cfg = true -> fx_timer cfg = true ->
+  forall acts s1 s2, veq s1 s2 -> veq (exec_acts cfg s1 acts) (exec_acts cfg s2 (filter is_user acts)).
+Proof.
+  intros A F P T. induction acts as [|a acts IH]; intros s1 s2 H; [exact H|].
+  cbn [filter]. destruct (is_user a) eqn:U.
+  - cbn [exec_acts fold_left]. apply IH. destruct a; [discriminate|..]; cbn [do_act]; apply user_veq; auto.
+  - destruct a as [o p| | |]; try discriminate. cbn [exec_acts fold_left do_act]. apply IH.
+    destruct (run_veq cfg o p s1 A F P T) as (a1 & a2 & a3 & a4 & a5).
+    destruct H as (h1 & h2 & h3 & h4 & h5). unfold veq. rewrite a1, a2, a3, a4, a5. auto.
+Qed.
+
+Corollary runs_invisible_current acts s :
+  veq (exec_acts current s acts) (exec_acts current s (filter is_user acts)).
+Proof. apply runs_invisible; try reflexivity. unfold veq. auto. Qed.
+
 (* ---- the tree as it is (after the four repairs) satisfies all of C19 --------------------------- *)
 Theorem restores_current : C19_statement current.
 Proof. apply restores_if_fixed; reflexivity. Qed.
@@ -422,13 +540,13 @@ Example nonvacuous :
   usable (gp st0) = true
   (* the present behaviour restores everything on the runs that refuted the unrepaired one *)
   /\ restored st0 (exec_runs current st0 [(opts0, returns); (opts0, raises); (opts_timed, returns);
-                                           (opts_module, mkProg Exc true true true)]) = true
+                                           (opts_module, mkProg Exc true true true [Fire; Fire; DumpDone])]) = true
   /\ restored st0 (exec_runs unrepaired st0 [(opts0, returns)]) = false
   /\ fst (main current opts0 raises st0) = Raised
   (* during the run the pieces really are changed (the model is not the identity) *)
-  /\ cur (path (snd (main_body current opts_module (mkProg Return true false true) st0)))
+  /\ cur (path (snd (main_body current opts_module (mkProg Return true false true []) st0)))
      = ["/T/setupd"; "/T"; "/lib"; "/prog-added"]
-  /\ cur (argv (snd (main_body current opts_module (mkProg Return false true true) st0))) = ["mod"; "x"; "prog-added"].
+  /\ cur (argv (snd (main_body current opts_module (mkProg Return false true true []) st0))) = ["mod"; "x"; "prog-added"].
 Proof. vm_compute. repeat split; reflexivity. Qed.
 
 (* ---- executable comparison used by the case shards ---------------------------------------------- *)
@@ -459,14 +577,23 @@ Definition run_matches (before : St) (r : result) (after : St) (o : seen) : bool
   && Z.eqb (timers after) (sn_timers o)
   && Bool.eqb (match tracing after with Some _ => true | None => false end) (sn_tracing o).
 
-(* model vs implementation along a sequence of runs *)
-Fixpoint runs_match (cfg : Fixes) (s : St) (rs : list run) (os : list seen) : bool :=
-  match rs, os with
-  | [], [] => true
-  | (o, p) :: t, ob :: ot =>
-      let '(r, s') := main cfg o p s in run_matches s r s' ob && runs_match cfg s' t ot
-  | _, _ => false
+(* the RepeatedTimer driven directly through a schedule: which scheduled expiries really happened,
+   and how many helper threads are alive after the schedule and the dumps in progress are over *)
+Fixpoint rt_fires (r : bool) (t : RT) (es : list tevent) : list bool :=
+  match es with
+  | [] => []
+  | Fire :: es' => (match rt_cur t with Armed => true | _ => false end) :: rt_fires r (rt_step r t Fire) es'
+  | e :: es' => rt_fires r (rt_step r t e) es'
   end.
+Definition rt_final_threads (r : bool) (es : list tevent) : Z :=
+  let t := rt_exec r rt_init es in
+  Z.of_nat (rt_threads (rt_exec r t (repeat DumpDone (rt_dumping t)))).
+Definition has_stop (es : list tevent) : bool := existsb (fun e => match e with Stop => true | _ => false end) es.
+Definition rt_case (es : list tevent) (fires : list bool) (threads : Z) : bool * bool :=
+  (list_eqb Bool.eqb (rt_fires rearm_before_dump rt_init es) fires
+   && Z.eqb (rt_final_threads rearm_before_dump es) threads,
+   (* the property: once stop() was called, nothing is left when the dumps in progress are over *)
+   if has_stop es then Z.eqb threads 0 else true).
 
 (* ordinary use afterwards: 0 = returned its argument, 1 = wrapped, 2 = TypeError, 3 = other *)
 Definition use_code (g : GP) (av : list string) : Z :=
@@ -477,18 +604,41 @@ Definition use_code (g : GP) (av : list string) : Z :=
   | Err _ => 3
   end.
 
-Definition case_model_ok (s : St) (rs : list run) (os : list seen) (use : Z) : bool :=
-  runs_match current s rs os
-  && Z.eqb (use_code (gp (exec_runs current s rs)) (cur (argv (exec_runs current s rs)))) use.
+(* model vs implementation along a sequence of steps (runs and ordinary uses); every step comes
+   with the observation made after it and, for a decoration, the code of its answer *)
+Definition act_result (cfg : Fixes) (s : St) (a : act) : result :=
+  match a with ARun o p => fst (main cfg o p s) | _ => Returned end.
+Fixpoint acts_match (cfg : Fixes) (s : St) (acts : list act) (os : list (seen * Z)) : bool :=
+  match acts, os with
+  | [], [] => true
+  | a :: t, (ob, code) :: ot =>
+      run_matches s (act_result cfg s a) (do_act cfg s a) ob
+      && match a with ADecorate => Z.eqb (use_code (gp s) (cur (argv s))) code | _ => true end
+      && acts_match cfg (do_act cfg s a) t ot
+  | _, _ => false
+  end.
 
-(* the property on the implementation's own final observation: which clauses fail
-   (bit 1 argv, 2 path, 4 profile, 8 tracing, 16 timers); 0 = restored *)
-Definition spec_bits (s : St) (final : seen) (use : Z) : Z :=
-  (if strs_eqb (cur (argv s)) (sn_argv final) then 0 else 1)
-  + (if strs_eqb (cur (path s)) (sn_path final) then 0 else 2)
-  + (if negb (Z.eqb use 2) && negb (Z.eqb use 3)
-        && ((opt_eqb Bool.eqb (f_enabled (gp s)) (sn_enabled final) && opt_eqb prof_eqb (f_profile (gp s)) (sn_profile final))
-            || (match sn_enabled final, sn_profile final with None, None => true | _, _ => false end))
+Definition case_model_ok (s : St) (acts : list act) (os : list (seen * Z)) : bool := acts_match current s acts os.
+
+(* the property on the implementation's own observations: for every kernprof run, the observation
+   before it against the one after it; which clauses fail (bit 1 argv, 2 path, 4 profile,
+   8 tracing, 16 timers), or-ed over the runs; a decoration that raises counts for bit 4 *)
+Definition step_bits (b a : seen) : Z :=
+  (if strs_eqb (sn_argv b) (sn_argv a) then 0 else 1)
+  + (if strs_eqb (sn_path b) (sn_path a) then 0 else 2)
+  + (if opt_eqb Bool.eqb (sn_enabled b) (sn_enabled a) && opt_eqb prof_eqb (sn_profile b) (sn_profile a)
+        && negb (match sn_enabled a, sn_profile a with Some true, None => true | _, _ => false end)
      then 0 else 4)
-  + (if Bool.eqb (match tracing s with Some _ => true | None => false end) (sn_tracing final) then 0 else 8)
-  + (if Z.eqb (timers s) (sn_timers final) then 0 else 16).
+  + (if Bool.eqb (sn_tracing b) (sn_tracing a) then 0 else 8)
+  + (if Z.eqb (sn_timers b) (sn_timers a) then 0 else 16).
+
+Fixpoint spec_bits (prev : seen) (acts : list act) (os : list (seen * Z)) : Z :=
+  match acts, os with
+  | a :: t, (ob, code) :: ot =>
+      Z.lor (match a with
+             | ARun _ _ => step_bits prev ob
+             | ADecorate => if Z.eqb code 2 || Z.eqb code 3 then 4 else 0
+             | _ => 0
+             end) (spec_bits ob t ot)
+  | _, _ => 0
+  end.
